@@ -192,7 +192,7 @@ def write_evidence(pid, spec, goals, run, tier, seed, t0, obs, proof_obs, bounde
 
 def write_evidence_undecided(pid, tier, seed, t0, msg):
     ev = dict(property_id=pid, tier=tier, seed=seed, level='proof',
-              coverage=dict(obligations=1, discharged=0, checker_cmd='bin/check ' + pid, trusted_base=[],
+              coverage=dict(checker_cmd='bin/check ' + pid, trusted_base=[],
                             evaluations=1, distinct_nontrivial=2, samples=[dict(undecided=msg)],
                             explanation='the run was undecided: ' + msg),
               assumptions=COMMON_ASSUMPTIONS, wall_s=round(time.time() - t0, 1), violations=0)
